@@ -13,10 +13,12 @@ package main
 import (
 	"encoding/json"
 	"fmt"
+	"go/ast"
 	"go/types"
 	"os"
 	"path/filepath"
 	"sort"
+	"strings"
 
 	"golang.org/x/tools/go/ssa"
 )
@@ -145,6 +147,14 @@ func (p *Program) writeBindings(verif string) error {
 		for _, l := range fc.Lets {
 			walk(l.E)
 		}
+		if isRepoPkg(pkgPathOf(fn)) && fn.Parent() == nil {
+			out[key] = map[string]*localBinding{"$sig": {Type: sigTypes(fn)}}
+		}
+		if isRepoPkg(pkgPathOf(fn)) && fn.Parent() != nil {
+			if v := closureVar(fn); v != "" {
+				out[key] = map[string]*localBinding{"$sig": {Type: sigTypes(fn)}, "$var": {Type: v}}
+			}
+		}
 		for n := range names {
 			if b := bindingOf(fn, n); b != nil {
 				if out[key] == nil {
@@ -161,4 +171,135 @@ func (p *Program) writeBindings(verif string) error {
 	}
 	fmt.Printf("bindings: %d names in %d functions\n", n, len(out))
 	return os.WriteFile(filepath.Join(verif, "contracts", "bindings.json"), append(data, '\n'), 0o644)
+}
+
+// sigTypes: receiver, parameter and result types of fn (no names).
+func sigTypes(fn *ssa.Function) string {
+	sig := fn.Signature
+	q := func(p *types.Package) string { return p.Path() }
+	str := ""
+	if sig.Recv() != nil {
+		str += "(" + types.TypeString(sig.Recv().Type(), q) + ") "
+	}
+	str += "("
+	for i := 0; i < sig.Params().Len(); i++ {
+		if i > 0 {
+			str += ", "
+		}
+		str += types.TypeString(sig.Params().At(i).Type(), q)
+	}
+	if sig.Variadic() {
+		str += "..."
+	}
+	str += ") ("
+	for i := 0; i < sig.Results().Len(); i++ {
+		if i > 0 {
+			str += ", "
+		}
+		str += types.TypeString(sig.Results().At(i).Type(), q)
+	}
+	return str + ")"
+}
+
+// rebindRenamed: a contract whose function is gone is bound to the one function of the same package
+// that has the recorded signature and no contract of its own (a renamed helper). Like the binding
+// of renamed locals this only chooses what the contract talks about; everything is still proved.
+func (p *Program) rebindRenamed() {
+	p.rebindClosures()
+	for key, fc := range p.Contracts {
+		if p.fnByKey[key] != nil || fc.IsLemma || p.Bindings[key] == nil || p.Bindings[key]["$sig"] == nil || p.Bindings[key]["$var"] != nil {
+			continue
+		}
+		want := p.Bindings[key]["$sig"].Type
+		var cands []*ssa.Function
+		for k2, fn := range p.fnByKey {
+			if fn.Parent() != nil || fn.Synthetic != "" || len(fn.Blocks) == 0 || pkgPathOf(fn) != fc.PkgPath || p.Contracts[k2] != nil {
+				continue
+			}
+			if sigTypes(fn) == want {
+				cands = append(cands, fn)
+			}
+		}
+		if len(cands) != 1 {
+			continue
+		}
+		fn := cands[0]
+		p.fnByKey[key] = fn
+		p.Contracts[keyOfFunction(fn)] = fc
+		p.Renamed = append(p.Renamed, fmt.Sprintf("%s is now %s", shortKey(key), fn.Name()))
+	}
+	sort.Strings(p.Renamed)
+}
+
+// closureVar: the variable a function literal is assigned to (`name := func...`, `name = func...`,
+// `var name = func...`), or "".
+func closureVar(fn *ssa.Function) string {
+	lit, ok := fn.Syntax().(*ast.FuncLit)
+	if !ok || fn.Parent() == nil || fn.Parent().Syntax() == nil {
+		return ""
+	}
+	name := ""
+	ast.Inspect(fn.Parent().Syntax(), func(n ast.Node) bool {
+		switch x := n.(type) {
+		case *ast.AssignStmt:
+			for i, r := range x.Rhs {
+				if r == ast.Expr(lit) && i < len(x.Lhs) {
+					if id, ok := x.Lhs[i].(*ast.Ident); ok {
+						name = id.Name
+					}
+				}
+			}
+		case *ast.ValueSpec:
+			for i, r := range x.Values {
+				if r == ast.Expr(lit) && i < len(x.Names) {
+					name = x.Names[i].Name
+				}
+			}
+		}
+		return name == ""
+	})
+	return name
+}
+
+// rebindClosures: a contract on a function literal is keyed by the literal's ordinal (Transform$14);
+// adding or removing another literal shifts the ordinals. bindings.json records the variable the
+// literal is assigned to; when the literal at the ordinal is not that one any more, the contract
+// follows the variable.
+func (p *Program) rebindClosures() {
+	p.ctrOverride = map[*ssa.Function]*FuncContract{}
+	for key, fc := range p.Contracts {
+		b := p.Bindings[key]
+		if b == nil || b["$var"] == nil || b["$sig"] == nil {
+			continue
+		}
+		cur := p.fnByKey[key]
+		if cur != nil && closureVar(cur) == b["$var"].Type {
+			continue
+		}
+		i := strings.LastIndex(key, "$")
+		if i < 0 {
+			continue
+		}
+		parent := p.fnByKey[key[:i]]
+		if parent == nil {
+			continue
+		}
+		var cands []*ssa.Function
+		for _, an := range parent.AnonFuncs {
+			if closureVar(an) == b["$var"].Type && sigTypes(an) == b["$sig"].Type {
+				cands = append(cands, an)
+			}
+		}
+		if len(cands) != 1 {
+			continue
+		}
+		if cur != nil {
+			if _, taken := p.ctrOverride[cur]; !taken {
+				p.ctrOverride[cur] = nil // the literal that now sits at this ordinal has no contract
+			}
+		}
+		p.fnByKey[key] = cands[0]
+		p.ctrOverride[cands[0]] = fc
+		p.Renamed = append(p.Renamed, fmt.Sprintf("%s is now the function literal %s (%s)", shortKey(key), cands[0].Name(), b["$var"].Type))
+	}
 }
